@@ -307,7 +307,7 @@ def enumerate_cases(atoms, nonneg=True, extra_consts=(), variant_domain=None, co
         # Points that are sums/differences of other points are not free: the feasible order types are exactly those some
         # assignment of (small) non-negative integers to the remaining points realises.  Enumerate those assignments and keep the
         # order types they induce (a decision procedure for the table over a finite abstract domain - no solver, no program run).
-        derived = [t for t in ints if t[0] == "bin" and t[1] in ("Add", "Sub") and len(t) == 4]
+        derived = [t for t in ints if t[0] == "bin" and t[1] in ("Add", "Sub", "WrappingSub") and len(t) == 4]
         if derived and (not cs or max(cs) <= 4):
             iset = set(ints)
 
@@ -334,7 +334,13 @@ def enumerate_cases(atoms, nonneg=True, extra_consts=(), variant_domain=None, co
                         if va is None or vb is None:
                             ok = False
                             break
-                        val[t] = va + vb if t[1] == "Add" else max(va - vb, 0)
+                        if t[1] == "Add":
+                            val[t] = va + vb
+                        elif t[1] == "Sub":
+                            val[t] = max(va - vb, 0)
+                        else:
+                            # wrapping_sub: a wrapped difference is larger than every length/index in play (those are <= isize::MAX)
+                            val[t] = va - vb if va >= vb else 8 * K - (vb - va)
                     if not ok:
                         realised = None
                         break
